@@ -461,6 +461,11 @@ var notCovered = map[string][]string{
 		"known finding: Number scanner exponent magnitude above 2^40 (make with a huge length)",
 	},
 	"C04": {"only the integer parsers and the constraint constructors that use them; float parsing (strconv) is external"},
+	"C05": {
+		"that the tree walk (userTypesCollector.collect) visits every position where a type can be referred to: dynamic dispatch over the Node family, strings.Split / TrimSpace",
+		"Check() reports 'type not found' iff a type reachable from the root is missing (checker pipeline); registering unused types changes nothing",
+		"observed on the unchanged tree and not fixed: `@a |` makes collect index an empty string (recovered by the API into a generic error)",
+	},
 	"C09": {
 		"address-derived names of unnamed types (`#%p`, ISchema.AddUnnamedType) reaching an error message (SetIncorrectUserType)",
 		"independence from the registration order of AddType / AddRule as a whole-history property (no per-function contract states it)",
